@@ -333,10 +333,19 @@ def run_unit(u, tier):
             ("default-json-type:union-no-branch", R("int") | {"fields": [{"name": "u", "type": ["null", {"type": "array", "items": "int"}], "default": 5}]}),
             ("default-json-type:union-no-branch", R("int") | {"fields": [{"name": "u", "type": ["string", {"type": "map", "values": "int"}], "default": []}]}),
             ("default-json-type:by-name-record", {"type": "record", "name": "R", "fields": [{"name": "a", "type": R("int") | {"name": "In"}}, {"name": "b", "type": "In", "default": "str"}]}),
+            ("default-json-type:annotated-long", R("int") | {"fields": [{"name": "t", "type": {"type": "long", "logicalType": "timestamp-millis"}, "default": "now"}]}),
+            ("default-json-type:annotated-int", R("int") | {"fields": [{"name": "t", "type": {"type": "int", "logicalType": "date"}, "default": "2020-01-01"}]}),
+            ("default-json-type:annotated-string", R("int") | {"fields": [{"name": "t", "type": {"type": "string", "logicalType": "uuid"}, "default": 7}]}),
+            ("default-json-type:annotated-long-null", R("int") | {"fields": [{"name": "t", "type": {"type": "long", "logicalType": "time-micros"}, "default": None}]}),
+            ("default-json-type:annotated-bytes", R("int") | {"fields": [{"name": "t", "type": {"type": "bytes", "logicalType": "decimal", "precision": 4, "scale": 1}, "default": 1.5}]}),
+            ("default-json-type:annotated-unknown-logical", R("int") | {"fields": [{"name": "t", "type": {"type": "int", "logicalType": "made-up"}, "default": "x"}]}),
+            ("default-json-type:custom-attr-prim", R("int") | {"fields": [{"name": "t", "type": {"type": "boolean", "note": "x"}, "default": 1.5}]}),
             ("default-json-type:by-name-enum", {"type": "record", "name": "R", "fields": [{"name": "a", "type": E}, {"name": "b", "type": "E", "default": 5}]}),
         ]:
             expect_reject(fa, res, None, s, lab, seen)
         for lab, s in [
+            ("annotated-long-int-default", R("int") | {"fields": [{"name": "t", "type": {"type": "long", "logicalType": "timestamp-millis"}, "default": 0}]}),
+            ("annotated-string-default", R("int") | {"fields": [{"name": "t", "type": {"type": "string", "logicalType": "uuid"}, "default": "12345678-1234-1234-1234-123456789abc"}]}),
             ("double-int-default", R("int") | {"fields": [{"name": "d", "type": {"type": "double"}, "default": 1}]}),
             ("float-int-default", R("int") | {"fields": [{"name": "d", "type": "float", "default": 1}]}),
             ("forward-ref-inside-own-record", {"type": "record", "name": "R", "fields": [{"name": "r", "type": ["null", "R"], "default": None}]}),
